@@ -65,7 +65,7 @@ def tag_tables(ctx) -> None:
                         txt = core.src(cond)
                         okc = bool(re.fullmatch(r'\w+ is not None', txt))
                         ctx.check(okc, 'C18.tag-table', dumps, f'a section helper may omit only absent (None) values; the filter `if {txt}` also drops present falsy values (ordinal 0, score 0.0, empty string) which then read back as None', cond, key=f'filter:{k.value}')
-    ctx.floor('C18.tag-keys', len(written), 4)
+    ctx.floor('C18.tag-keys', len(written), 2)
     # reads in loads: meta[section][key] or meta[section].get(key), bound to keyword of a call cls.<Mode>(...)
     reads: dict[tuple[str, str], tuple[str, str, str, ast.AST]] = {}
     for call in core.calls_in(loads.node):
